@@ -84,7 +84,7 @@ def faults_part(ctx, only=None):
     cov = {}
     if only is None:
         wd = ctx.stage("mc_faults", FAMS)
-        rig.write_cfg(wd / "MC_Faults.cfg", init="FInit", next_="FNext", invariants=["TypeOK", "FunctionalAgrees", "StopClosedOnce", "ReferenceSane"], deadlock=True)
+        rig.write_cfg(wd / "MC_Faults.cfg", init="MCInit", next_="FNext", constants={"Quick": ctx.quick}, invariants=["TypeOK", "FunctionalAgrees", "StopClosedOnce", "ReferenceSane"], deadlock=True)
         r = ctx.tlc(wd, "MC_Faults", workers=4, timeout=600, coverage=not ctx.quick, must_pass=True)
         holes = rig.read_ndjson(wd / "model_holes.ndjson")
         cov.update(states=r.distinct, transitions=r.generated, mc_wall_s=round(r.wall, 1),
@@ -179,7 +179,7 @@ def url_part(ctx, only=None):
     consts = {"MaxLen": ctx.pick(3, 4), "GenLen": ctx.pick(3, 4)}
     if only is None:
         wd = ctx.stage("mc_url", FAMS)
-        invs = ["InvFieldComments", "InvValuesDecodeBack", "InvEndResets", "InvFunctionalAgrees"]
+        invs = ["InvFieldComments", "InvNoActionFault", "InvValuesDecodeBack", "InvEndResets", "InvFunctionalAgrees"]
         rig.write_cfg(wd / "MC_URLState.cfg", constants=consts, invariants=invs)
         r = ctx.tlc(wd, "MC_URLState", workers=ctx.pick(4, 8), timeout=1500, coverage=not ctx.quick, must_pass=True)
         holes = rig.read_ndjson(wd / "url_model_holes.ndjson")
